@@ -59,7 +59,7 @@ impl MacroInputs for u8 {
     }
 }
 
-pub const MACRO_PREDS_2: &[u32] = &[0xffff, 0x1111, 0x0ff0, 0x4010, 0xf888, 0x8421];
+pub const MACRO_PREDS_2: &[u32] = &[0xffff, 0x1111, 0x0ff0, 0x4010, 0xf888, 0x8421, 0x0200, 0xeee0, 0x0e00];
 
 impl MacroInputs for (u8, u8) {
     fn table<F: for<'i> MockFn<Inputs<'i> = (u8, u8)>>(pred: u32) -> Option<&'static dyn Fn(&mut Matching<F>)> {
@@ -71,6 +71,10 @@ impl MacroInputs for (u8, u8) {
             // Rust semantics: the guard is tried for every alternative that matches structurally
             0xf888 => matching!((x, _) | (_, x) if *x > 2),
             0x8421 => matching!((a, b) if a == b),
+            // two compare matchers in one alternative
+            0x0200 => matching!(eq!(&1u8), eq!(&2u8)),
+            0xeee0 => matching!(ne!(&0u8), ne!(&0u8)),
+            0x0e00 => matching!(ne!(&0u8), eq!(&2u8)),
             _ => return None,
         })
     }
@@ -423,7 +427,7 @@ fn clause_for(spec: &ClauseSpec, uids: &[u16]) -> DynClause {
         M::GpU8 => opaque::clause_u8(|| GenMMock::gp.with_types::<u8>(), spec, uids),
         M::GpU16 => opaque::clause_u16(|| GenMMock::gp.with_types::<u16>(), spec, uids),
         other @ (M::LendA | M::LendB | M::LendMut | M::Lent | M::LendClone | M::LendVia | M::LendViaMut | M::LendZ | M::OwnSingle | M::OwnMulti
-        | M::OwnOpt | M::OwnRes | M::OwnTup | M::OwnTup1 | M::OwnVec | M::OwnTup3 | M::OwnDeepOpt | M::OwnDeepPoll | M::OwnPollMulti | M::TermReport) => {
+        | M::OwnOpt | M::OwnRes | M::OwnTup | M::OwnTup1 | M::OwnVec | M::OwnTup3 | M::OwnDeepOpt | M::OwnDeepPoll | M::OwnPollMulti | M::OwnOptMulti | M::TermReport) => {
             panic!("{other:?} is configured through Config::specials")
         }
         M::Af => ref1::clause(AsyncAMock::af, spec, uids),
@@ -433,6 +437,8 @@ fn clause_for(spec: &ClauseSpec, uids: &[u16]) -> DynClause {
         M::GenU16 => gen_u16(spec, uids),
         M::GmU8 => genm_u8(spec, uids),
         M::GmU16 => genm_u16(spec, uids),
+        M::GiU8 => opaque::clause_u8(|| GenIMock::gi.with_types::<u8>(), spec, uids),
+        M::GiU16 => opaque::clause_u16(|| GenIMock::gi.with_types::<u16>(), spec, uids),
     }
 }
 
@@ -708,6 +714,12 @@ fn special_clause(sp: &Special) -> DynClause {
         ),
         #[cfg(not(feature = "stdworld"))]
         Special::MockedReport { .. } => DynClause::new(()),
+        Special::OwnOptMulti { quant, id } => quantified(
+            OwnMock::own_opt_multi
+                .each_call(matching!(_))
+                .returns(Some(Err::<u32, _>(TrackedC::new(&tracker, *id)))),
+            *quant,
+        ),
         Special::OwnPollMulti { quant, id } => quantified(
             OwnMock::own_poll_multi
                 .each_call(matching!(_))
